@@ -7,6 +7,7 @@ import (
 	"strconv"
 	"testing"
 	"time"
+	"verif/sim/kernel"
 )
 
 func TestSmokeB(t *testing.T) {
@@ -25,6 +26,11 @@ func TestSmokeB(t *testing.T) {
 	probes := map[string]int{}
 	for i := 0; i < n; i++ {
 		seed := base + uint64(i)
+		if os.Getenv("IDX") != "" {
+			// the seed the checks use for run index IDX+i of a batch with VERIF_SEED=1
+			idx, _ := strconv.Atoi(os.Getenv("IDX"))
+			seed = kernel.Mix64(1, kernel.HashString(prop), uint64(idx+i))
+		}
 		plan := Gen(prop, "quick", seed)
 		res := Execute(t, plan, nil, os.Getenv("VV") != "")
 		if os.Getenv("VV") != "" {
@@ -32,6 +38,9 @@ func TestSmokeB(t *testing.T) {
 			for _, l := range res.Log {
 				fmt.Println("   ", l)
 			}
+		}
+		if os.Getenv("HASH") != "" {
+			fmt.Printf("seed %d state-hash %d\n", seed, res.StateHash)
 		}
 		if res.Nontrivial {
 			nt++
